@@ -837,10 +837,10 @@ pub fn all() -> Vec<Ep> {
         Ep { name: "tree-iter", tie: Strong, shape: Text, seeds: "tree", call: tree_iter },
         Ep { name: "loose-header", tie: Strong, shape: Token, seeds: "loose-header", call: loose_header },
         Ep { name: "loose-object", tie: Strong, shape: Text, seeds: "loose-object", call: loose_object },
-        Ep { name: "signature", tie: None, shape: Token, seeds: "signature", call: signature },
+        Ep { name: "signature", tie: Strong, shape: Token, seeds: "signature", call: signature },
         Ep { name: "oid-hex", tie: Strong, shape: Token, seeds: "hex", call: oid_hex },
         Ep { name: "prefix-hex", tie: Strong, shape: Token, seeds: "hex", call: prefix_hex },
-        Ep { name: "loose-ref", tie: None, shape: Token, seeds: "loose-ref", call: loose_ref },
+        Ep { name: "loose-ref", tie: Strong, shape: Token, seeds: "loose-ref", call: loose_ref },
         Ep { name: "packed-refs", tie: Strong, shape: Text, seeds: "packed-refs", call: packed_refs },
         Ep { name: "reflog-line", tie: Strong, shape: Token, seeds: "reflog-line", call: reflog_line },
         Ep { name: "reflog-fwd", tie: Strong, shape: Text, seeds: "reflog", call: reflog_fwd },
@@ -860,21 +860,21 @@ pub fn all() -> Vec<Ep> {
         Ep { name: "config-path", tie: None, shape: Token, seeds: "config-path", call: config_path },
         Ep { name: "attributes", tie: None, shape: Text, seeds: "attributes", call: attributes },
         Ep { name: "ignore", tie: None, shape: Text, seeds: "ignore", call: ignore },
-        Ep { name: "mailmap", tie: None, shape: Text, seeds: "mailmap", call: mailmap },
-        Ep { name: "commit-graph", tie: None, shape: Binary, seeds: "commit-graph", call: commit_graph },
-        Ep { name: "midx", tie: None, shape: Binary, seeds: "midx", call: midx },
+        Ep { name: "mailmap", tie: Strong, shape: Text, seeds: "mailmap", call: mailmap },
+        Ep { name: "commit-graph", tie: Strong, shape: Binary, seeds: "commit-graph", call: commit_graph },
+        Ep { name: "midx", tie: Strong, shape: Binary, seeds: "midx", call: midx },
         Ep { name: "pkt-stream", tie: Strong, shape: Pkt, seeds: "pkt", call: pkt_stream },
-        Ep { name: "pkt-all", tie: None, shape: Pkt, seeds: "pkt-line", call: pkt_all },
+        Ep { name: "pkt-all", tie: Strong, shape: Pkt, seeds: "pkt-line", call: pkt_all },
         Ep { name: "pkt-read", tie: Strong, shape: Pkt, seeds: "pkt", call: pkt_read },
         Ep { name: "pkt-sideband", tie: None, shape: Pkt, seeds: "pkt-band", call: pkt_sideband },
         Ep { name: "handshake", tie: None, shape: Pkt, seeds: "handshake", call: handshake },
         Ep { name: "ls-refs", tie: None, shape: Pkt, seeds: "ls-refs", call: ls_refs },
         Ep { name: "fetch-v1", tie: None, shape: Pkt, seeds: "fetch-v1", call: fetch_v1 },
         Ep { name: "fetch-v2", tie: None, shape: Pkt, seeds: "fetch-v2", call: fetch_v2 },
-        Ep { name: "fetch-line", tie: None, shape: Token, seeds: "fetch-line", call: fetch_line },
-        Ep { name: "capabilities", tie: None, shape: Token, seeds: "capabilities", call: capabilities },
+        Ep { name: "fetch-line", tie: Strong, shape: Token, seeds: "fetch-line", call: fetch_line },
+        Ep { name: "capabilities", tie: Strong, shape: Token, seeds: "capabilities", call: capabilities },
         Ep { name: "url", tie: None, shape: Token, seeds: "url", call: url },
-        Ep { name: "url-expand", tie: None, shape: Token, seeds: "url-expand", call: url_expand },
+        Ep { name: "url-expand", tie: Strong, shape: Token, seeds: "url-expand", call: url_expand },
         Ep { name: "refspec-fetch", tie: None, shape: Token, seeds: "refspec", call: refspec_fetch },
         Ep { name: "refspec-push", tie: None, shape: Token, seeds: "refspec", call: refspec_push },
         Ep { name: "refspec-match", tie: Weak, shape: Text, seeds: "refspec-match", call: refspec_match },
